@@ -1261,8 +1261,8 @@ impl GraphDatabase {
             }
 
             let name = match self.data_model.name_for(&node._entity) {
-                Some(e) => e,
-                None => {
+                Some(e) if !is_authorisation_entity(&e) => e,
+                _ => {
                     invalid_nodes.push(node_to_insert.id);
                     continue;
                 }
@@ -1299,8 +1299,8 @@ impl GraphDatabase {
 
         for edge in edges {
             let name = match self.data_model.name_for(&edge.src_entity) {
-                Some(e) => e,
-                None => {
+                Some(e) if !is_authorisation_entity(&e) => e,
+                _ => {
                     invalid_edges.push(edge.src);
                     continue;
                 }
@@ -1315,7 +1315,7 @@ impl GraphDatabase {
     pub async fn delete_edges(&self, mut edges: Vec<EdgeDeletionEntry>, reply: Sender<Result<()>>) {
         for edge in &mut edges {
             let entity_name = self.data_model.name_for(&edge.src_entity);
-            edge.entity_name = entity_name;
+            edge.entity_name = entity_name.filter(|n| !is_authorisation_entity(n));
         }
         let auth_service = self.auth_service.clone();
         let _ = self
@@ -1340,7 +1340,7 @@ impl GraphDatabase {
     pub async fn delete_nodes(&self, mut nodes: Vec<NodeDeletionEntry>, reply: Sender<Result<()>>) {
         for node in &mut nodes {
             let entity_name = self.data_model.name_for(&node.entity);
-            node.entity_name = entity_name;
+            node.entity_name = entity_name.filter(|n| !is_authorisation_entity(n));
         }
         let auth_service = self.auth_service.clone();
         let _ = self
@@ -1361,6 +1361,20 @@ impl GraphDatabase {
             }))
             .await;
     }
+}
+
+///
+/// The rows and references of a room definition only travel inside a RoomNode (add_room_node):
+/// they are never accepted as synchronised data, whatever right (including "*") the room grants
+///
+fn is_authorisation_entity(name: &str) -> bool {
+    matches!(
+        name,
+        system_entities::ROOM_ENT
+            | system_entities::AUTHORISATION_ENT
+            | system_entities::USER_AUTH_ENT
+            | system_entities::ENTITY_RIGHT_ENT
+    )
 }
 
 struct QueryCacheEntry {
